@@ -99,12 +99,13 @@ theorem startsOp_of_mem (ops : List Op) (o : Op) (ho : o ∈ ops) (c : Nat) (t :
 theorem atom_noParen (ops : List Op) (lp rp : Op) (hF : FullTable ops lp rp) (x : Bytes) (hx : AtomOK ops x) :
     ∀ c ∈ x, c ≠ 40 ∧ c ≠ 41 := by
   intro c hc
-  have h := (hx.2.1 c hc).2.2
-  constructor
-  · intro e; subst e
-    rw [startsOp_of_mem ops lp hF.lpM 40 [] hF.lpS] at h; exact Bool.noConfusion h
-  · intro e; subst e
-    rw [startsOp_of_mem ops rp hF.rpM 41 [] hF.rpS] at h; exact Bool.noConfusion h
+  rcases atomScan_mem ops x [] hx.2.2.1 c hc with h | h
+  · constructor
+    · intro e; subst e
+      rw [startsOp_of_mem ops lp hF.lpM 40 [] hF.lpS] at h; exact Bool.noConfusion h
+    · intro e; subst e
+      rw [startsOp_of_mem ops rp hF.rpM 41 [] hF.rpS] at h; exact Bool.noConfusion h
+  · subst h; decide
 
 theorem atom_plain (ops : List Op) (lp rp : Op) (hF : FullTable ops lp rp) (x : Bytes) (hx : AtomOK ops x)
     (h44 : (44 : Nat) ∉ x) (h36 : (36 : Nat) ∉ x) : Plain x := by
@@ -567,5 +568,240 @@ theorem X.evaluate_render (ops : List Op) (fns : List Bytes) (resolve : Option (
     evaluate ops fns resolve (depth + 1) (e.render lp rp ws) = .ok e.str := by
   simp only [evaluate, X.parse_render ops fns lp rp hF e hw ws hws, X.tree,
     X.eval_tree ops fns resolve lp rp hF e hw he depth hd]
+
+
+/-- `NextArg`, iterated as the functions do, splits the argument text of a rendered call back into the renderings of
+    the arguments -/
+theorem XL.splitArgs_texts (ops : List Op) (fns : List Bytes) (lp rp : Op) (hF : FullTable ops lp rp) :
+    ∀ l : XL, l.WF ops fns lp.prec → l.Ev → ∀ fuel, (joinComma (l.texts lp rp)).length < fuel →
+      splitArgs fuel (joinComma (l.texts lp rp)) = l.texts lp rp
+  | .nil, _, _, fuel, hf => by
+    cases fuel with
+    | zero => omega
+    | succ f => simp [splitArgs, XL.texts, joinComma]
+  | .cons a w t, hw, he, fuel, hf => by
+    simp only [XL.WF] at hw
+    simp only [XL.Ev] at he
+    obtain ⟨ha, hwb, ht⟩ := hw
+    have h1 := X.toE_ok ops fns lp rp hF a ha
+    have h2 := X.toE_txt ops fns lp rp hF a ha he.1
+    have hta := txt_render ops fns lp rp hF w hwb _ h1.1 h1.2 h2 0
+    have hne : render w 0 ((a.toE lp rp).toks lp rp) ≠ [] := by
+      have := render_ne ops fns hF.ne lp rp hF.lpS w _ h1.2 0 []
+      simpa using this
+    have hsplit := nextArg_joinComma _ (t.texts lp rp) hta.2.1
+    have hlen := joinComma_length _ (t.texts lp rp) hne
+    cases fuel with
+    | zero => omega
+    | succ f =>
+      simp only [XL.texts] at hf ⊢
+      have hrest := XL.splitArgs_texts ops fns lp rp hF t ht he.2 f (by omega)
+      have hne2 : joinComma (render w 0 ((a.toE lp rp).toks lp rp) :: t.texts lp rp) ≠ [] := by
+        intro h; rw [h] at hlen; simp at hlen
+      simp only [splitArgs, hne2, if_false, hsplit, hrest]
+
+/-! ### the same expression in another layout -/
+
+mutual
+/-- the expression with every blank run stored inside it (before `(` of a call, around the tokens of arguments)
+    removed -/
+def X.strip : X → X
+  | .atom u x => .atom u x
+  | .call u f _ args => .call u f [] args.strip
+  | .bin o l r => .bin o l.strip r.strip
+  | .paren u e => .paren u e.strip
+def XL.strip : XL → XL
+  | .nil => .nil
+  | .cons a _ t => .cons a.strip (fun _ => []) t.strip
+end
+
+mutual
+theorem X.str_strip : ∀ e : X, e.strip.str = e.str
+  | .atom u x => by simp [X.strip]
+  | .call u f b args => by simp [X.strip, X.str, XL.strs_strip args]
+  | .bin o l r => by simp [X.strip, X.str, X.str_strip l, X.str_strip r]
+  | .paren none e => by simp [X.strip, X.str, X.str_strip e]
+  | .paren (some v) e => by simp [X.strip, X.str, X.str_strip e]
+theorem XL.strs_strip : ∀ l : XL, l.strip.strs = l.strs
+  | .nil => by simp [XL.strip]
+  | .cons a w t => by simp [XL.strip, XL.strs, X.str_strip a, XL.strs_strip t]
+end
+
+
+/-! ### the nesting of calls is bounded by the length of the text -/
+
+theorem joinComma_length_ge (x : Bytes) (l : List Bytes) :
+    x.length ≤ (joinComma (x :: l)).length ∧ (joinComma l).length ≤ (joinComma (x :: l)).length := by
+  rw [joinComma_cons]
+  split
+  · rename_i h; subst h; simp [joinComma]
+  · simp; omega
+
+mutual
+theorem X.cd_le (lp rp : Op) : ∀ (e : X) (ws : Nat → Bytes) (k : Nat),
+    e.cd ≤ (renderP ws k ((e.toE lp rp).toks lp rp)).length
+  | .atom u x, ws, k => by simp [X.cd]
+  | .call u f b args, ws, k => by
+    have h := XL.cd_le lp rp args
+    simp only [X.cd, X.toE, E.toks, renderP_append, renderP, Tok.bytes, List.length_append, List.length_cons,
+      List.length_nil]
+    omega
+  | .bin o l r, ws, k => by
+    have h1 := X.cd_le lp rp l ws k
+    have h2 := X.cd_le lp rp r ws (k + ((l.toE lp rp).toks lp rp).length + 1)
+    simp only [X.cd, X.toE, E.toks, renderP_append, renderP, Tok.bytes, List.length_append, List.length_cons,
+      List.length_nil, List.append_assoc, List.cons_append, List.nil_append] at h1 h2 ⊢
+    simp only [Nat.add_assoc] at h2 ⊢
+    omega
+  | .paren u e, ws, k => by
+    have h1 := X.cd_le lp rp e ws (k + (unTok u).length + 1)
+    simp only [X.cd, X.toE, E.toks, renderP_append, renderP, Tok.bytes, List.length_append, List.length_cons,
+      List.length_nil, List.append_assoc, List.cons_append, List.nil_append] at h1 ⊢
+    simp only [Nat.add_assoc] at h1 ⊢
+    omega
+theorem XL.cd_le (lp rp : Op) : ∀ l : XL, l.cd ≤ (joinComma (l.texts lp rp)).length
+  | .nil => by simp [XL.cd]
+  | .cons a w t => by
+    have h1 := X.cd_le lp rp a w 0
+    have h2 := XL.cd_le lp rp t
+    have h3 := joinComma_length_ge (render w 0 ((a.toE lp rp).toks lp rp)) (t.texts lp rp)
+    have h4 : (renderP w 0 ((a.toE lp rp).toks lp rp)).length ≤ (render w 0 ((a.toE lp rp).toks lp rp)).length := by
+      rw [render_eq]; simp
+    simp only [XL.cd, XL.texts]
+    omega
+end
+
+/-- the nesting depth of calls is at most the length of the rendered text: the budget `len + 1` that `Evaluate` is
+    run with by the driver always suffices -/
+theorem X.cd_le_render (lp rp : Op) (e : X) (ws : Nat → Bytes) : e.cd ≤ (e.render lp rp ws).length := by
+  have h1 := X.cd_le lp rp e ws 0
+  unfold X.render
+  rw [render_eq]
+  simp only [List.length_append]
+  omega
+
+
+/-! ### variables outside call arguments -/
+
+theorem varName_count (i : Nat) (a : Bytes) : (varName i a).1.count 36 = 0 := by
+  induction a generalizing i with
+  | nil => simp [varName]
+  | cons c t ih =>
+    unfold varName
+    by_cases hc : isVarChar i c = true
+    · simp only [hc, if_true]
+      have hne : ¬ c = 36 := by
+        intro e; subst e; simp [isVarChar] at hc
+      rw [List.count_cons, ih (i + 1)]
+      simp [hne]
+    · simp [hc]
+
+/-- a variable reference `$name` evaluates to the resolver's answer -/
+theorem replaceVariables_var (f : Bytes → Bytes) (name : Bytes) (hn : name ≠ []) (hv : varName 0 name = (name, []))
+    (h36 : (36 : Nat) ∉ f name) (ht : trimSpace (f name) ≠ []) :
+    replaceVariables (some f) (36 :: name) = .ok (f name) := by
+  have hc : name.count 36 = 0 := by
+    have := (varName_count 0 name)
+    rw [hv] at this; exact this
+  unfold replaceVariables
+  rw [List.count_cons_self, hc]
+  simp [replaceVars, splitDollar, hv, hn, ht, splitDollar_none _ h36]
+
+/-- the atom after variable substitution -/
+def substAtom (f : Bytes → Bytes) : Bytes → Bytes
+  | 36 :: name => f name
+  | x => x
+
+/-- the expression with the variables outside call arguments replaced by the resolver's answers -/
+def X.subst (f : Bytes → Bytes) : X → X
+  | .atom u x => .atom u (substAtom f x)
+  | .call u g b args => .call u g b args
+  | .bin o l r => .bin o (l.subst f) (r.subst f)
+  | .paren u e => .paren u (e.subst f)
+
+/-- evaluable with the resolver `f`: like `X.Ev`, but an atom outside call arguments may be a variable `$name` whose
+    answer contains no `$` and is not blank -/
+def X.EvV (f : Bytes → Bytes) : X → Prop
+  | .atom _ x => ((44 : Nat) ∉ x ∧ (36 : Nat) ∉ x) ∨
+      ∃ name, x = 36 :: name ∧ name ≠ [] ∧ varName 0 name = (name, []) ∧ (36 : Nat) ∉ f name ∧ trimSpace (f name) ≠ []
+  | .call _ g _ args => (44 : Nat) ∉ g ∧ (36 : Nat) ∉ g ∧ args.Ev
+  | .bin o l r => o.bin = true ∧ l.EvV f ∧ r.EvV f
+  | .paren _ e => e.EvV f
+
+theorem substAtom_clean (f : Bytes → Bytes) (x : Bytes) (h : (36 : Nat) ∉ x) : substAtom f x = x := by
+  unfold substAtom
+  split
+  · simp at h
+  · rfl
+
+theorem X.eval_tree_vars (ops : List Op) (fns : List Bytes) (f : Bytes → Bytes) (lp rp : Op)
+    (hF : FullTable ops lp rp) :
+    ∀ e : X, e.WF ops fns lp.prec → e.EvV f → ∀ depth, e.cd ≤ depth →
+      evalNode (evaluate ops fns (some f) depth) (replaceVariables (some f)) (e.toE lp rp).toTree =
+        .ok (some (e.subst f).str)
+  | .atom u x, _, he, depth, _ => by
+    simp only [X.EvV] at he
+    rcases he with he | ⟨name, hx, hn, hv, h36, ht⟩
+    · simp [X.toE, E.toTree, evalNode, replaceVariables_id (some f) x he.2, X.str, X.subst, substAtom_clean f x he.2]
+    · subst hx
+      simp [X.toE, E.toTree, evalNode, replaceVariables_var f name hn hv h36 ht, X.str, X.subst, substAtom]
+  | .call u g b args, hw, he, depth, hd => by
+    simp only [X.EvV] at he
+    exact X.eval_tree ops fns (some f) lp rp hF (.call u g b args) hw (by simpa only [X.Ev] using he) depth hd
+  | .bin o l r, hw, he, depth, hd => by
+    simp only [X.WF] at hw
+    simp only [X.EvV] at he
+    have hdl : l.cd ≤ depth := by simp only [X.cd] at hd; omega
+    have hdr : r.cd ≤ depth := by simp only [X.cd] at hd; omega
+    have h1 := X.eval_tree_vars ops fns f lp rp hF l hw.2.2.2.2.1 he.2.1 depth hdl
+    have h2 := X.eval_tree_vars ops fns f lp rp hF r hw.2.2.2.2.2.1 he.2.2 depth hdr
+    simp [X.toE, E.toTree, evalNode, h1, h2, X.toTree_isNil, he.1, X.str, applyUn, X.subst]
+  | .paren u e, hw, he, depth, hd => by
+    simp only [X.WF] at hw
+    simp only [X.EvV] at he
+    have h1 := X.eval_tree_vars ops fns f lp rp hF e hw.2 he depth (by simpa only [X.cd] using hd)
+    cases u with
+    | none => simpa [X.toE, E.toTree, wrapN, X.str, X.subst] using h1
+    | some v =>
+      have hv : v.un = true := (hw.1 v rfl).2
+      simp [X.toE, E.toTree, wrapN, evalNode, h1, X.toTree_isNil, Node.isNil, Option.filter, hv, X.str, X.subst]
+
+/-- `Evaluate ∘ render` with variables outside call arguments: the bracketed form of the substituted expression -/
+theorem X.evaluate_render_vars (ops : List Op) (fns : List Bytes) (f : Bytes → Bytes) (lp rp : Op)
+    (hF : FullTable ops lp rp) (e : X) (hw : e.WF ops fns lp.prec) (he : e.EvV f) (ws : Nat → Bytes)
+    (hws : ∀ k, Blank (ws k)) (depth : Nat) (hd : e.cd ≤ depth) :
+    evaluate ops fns (some f) (depth + 1) (e.render lp rp ws) = .ok (e.subst f).str := by
+  simp only [evaluate, X.parse_render ops fns lp rp hF e hw ws hws, X.tree,
+    X.eval_tree_vars ops fns f lp rp hF e hw he depth hd]
+
+
+/-! ### variables anywhere (statement only: `Props/C09.lean`, `evaluate_render_Statement`) -/
+
+mutual
+/-- the expression with every variable, also inside call arguments, replaced by the resolver's answer -/
+def X.substAll (f : Bytes → Bytes) : X → X
+  | .atom u x => .atom u (substAtom f x)
+  | .call u g b args => .call u g b (args.substAll f)
+  | .bin o l r => .bin o (l.substAll f) (r.substAll f)
+  | .paren u e => .paren u (e.substAll f)
+def XL.substAll (f : Bytes → Bytes) : XL → XL
+  | .nil => .nil
+  | .cons a w t => .cons (a.substAll f) w (t.substAll f)
+end
+
+mutual
+/-- like `X.Ev`, but every atom may be a variable `$name` that the resolver answers with a literal (an atom without
+    `,` and `$`) -/
+def X.EvAll (ops : List Op) (f : Bytes → Bytes) : X → Prop
+  | .atom _ x => ((44 : Nat) ∉ x ∧ (36 : Nat) ∉ x) ∨
+      ∃ name, x = 36 :: name ∧ name ≠ [] ∧ varName 0 name = (name, []) ∧ AtomOK ops (f name) ∧
+        (44 : Nat) ∉ f name ∧ (36 : Nat) ∉ f name
+  | .call _ g _ args => (44 : Nat) ∉ g ∧ (36 : Nat) ∉ g ∧ args.EvAll ops f
+  | .bin o l r => o.bin = true ∧ l.EvAll ops f ∧ r.EvAll ops f
+  | .paren _ e => e.EvAll ops f
+def XL.EvAll (ops : List Op) (f : Bytes → Bytes) : XL → Prop
+  | .nil => True
+  | .cons a _ t => a.EvAll ops f ∧ t.EvAll ops f
+end
 
 end Eval
